@@ -174,7 +174,37 @@ def fixed_programs():
     p += [["Flattened", "0"], ["NewDoc"], ["Update", ["d", "2"], ["d", "0"]],
           ["NewDoc"], ["AddBundleDoc", "3", "0", ["Q", "ex", EXU, "whole"], ["ex"]]]
     out.append(p)
+    # flattened() is a function of the document as it is at the time of the call: called again after the earlier result
+    # was changed (update, new record), after a record was added to one of the source's bundles, after a bundle was
+    # added, after an attribute was added in place — each result must hold exactly the records the source holds then
+    head = [["NewDoc"], ["AddNs", ["d", "0"], "ex", EXU], ["NewBundle", "0", ["S", "ex:b1"]],
+            ["NewRecord", ["d", "0"], "Entity", ["S", "ex:top"], []],
+            ["NewRecord", ["b", "0", "0"], "Entity", ["S", "ex:in1"], [[["S", "ex:k"], ["int", "1"]]]],
+            ["NewDoc"], ["AddNs", ["d", "1"], "ex", EXU], ["NewRecord", ["d", "1"], "Agent", ["S", "ex:other"], []]]
+    changes = [[["Update", ["d", "2"], ["d", "1"]]],                                   # the earlier result receives records
+               [["NewRecord", ["d", "2"], "Activity", ["S", "ex:late"], []]],
+               [["NewRecord", ["b", "0", "0"], "Entity", ["S", "ex:in2"], []]],           # the source's bundle grows
+               [["NewBundle", "0", ["S", "ex:b2"]], ["NewRecord", ["b", "0", "1"], "Entity", ["S", "ex:in3"], []]],
+               [["AddAttrs", ["r", ["b", "0", "0"], "0"], [[["S", "ex:k"], ["int", "2"]]]]],
+               [["NewRecord", ["d", "0"], "Entity", ["S", "ex:top2"], []]],
+               [["AddBundleDoc", "0", "1", ["S", "ex:b3"], ["ex"]]]]
+    for i, ch in enumerate(changes):
+        for j, ch2 in enumerate(changes):
+            if j in (0, 1) and i not in (0, 1):
+                continue                                   # (handles: the first result is document 2)
+            out.append(head + [["Flattened", "0"]] + ch + [["Flattened", "0"]] + ch2 + [["Flattened", "0"], ["Flattened", "1"]])
     return out
+
+
+def flatten_again(g):
+    """generator phase: flattened(), a change to the source or to the earlier result, flattened() again"""
+    rng = g.rng
+    for _ in range(rng.choice([0, 1, 1, 2])):
+        d = str(rng.randrange(len(g.im.docs)))
+        g.emit(["Flattened", d])
+        for _ in range(rng.choice([1, 2])):
+            rng.choice([g.op_new_record, g.op_add_attrs, g.op_new_bundle, g.op_update, g.op_add_type])()
+        g.emit(["Flattened", d])
 
 
 def bundle_object_scenarios():
@@ -275,9 +305,9 @@ def run_programs(tier, seed, log, model_runs=True, enlarged=False):
                          ops_range_quick=(8, 26), ops_range_thorough=(10, 45),
                          rule_text="API programs (profile merge: several documents with bundles, shared bundle identifiers, clashing "
                                    "prefixes, differing default namespaces, repeated identifiers; update/add_bundle/bundle()/flattened "
-                                   "in sequences); conservation judged on strict record multisets before/after each such call; "
+                                   "in sequences; flattened() repeated after changes to the source and to the earlier result); conservation judged on strict record multisets before/after each such call; "
                                    "non-trivial = >=2 of those calls",
-                         extra_cases=fixed_programs(),
+                         extra_cases=fixed_programs(), post=flatten_again,
                          theorem_note="C09_* over World.add_record / Interp.step")
 
 
